@@ -80,9 +80,9 @@ def _effects(ex, ignored=IGNORED, keep_log_r=False):
     return out
 
 
-def rule_TS(ctx, owners=None, rule="TS", only=None):
+def rule_TS(ctx, owners=None, rule="TS", only=None, minimum=8):
     prog = ctx.prog
-    ctx.rule(rule, "tree editor methods agree with the frozen reference semantics: returned term of the queries; per guard scenario the multiset of primitive effects of the editors (refresh calls excluded)", 8)
+    ctx.rule(rule, "tree editor methods agree with the frozen reference semantics: returned term of the queries; per guard scenario the multiset of primitive effects of the editors (refresh calls excluded)", minimum)
     done = 0
     # the reference of a method calls the *reference* helpers (a refactoring may change a private helper's calling
     # convention together with its callers)
